@@ -9,13 +9,13 @@ extern "C" {
 }
 
 #if VP_SUB == 1
-enum { L_ADD, L_DEL, L_ROT_SHORT, L_ROT_LONG, L_MOV, L_SET, L_SWAP_SAME, L_SWAP_CROSS, L_SEC_DEL, L_SEC_ADD, L_SEC_SET, L_SEC_SWAP, L_SEC_SWAP_CROSS, L_LEN12 };
+enum { L_ADD, L_DEL, L_ROT_SHORT, L_ROT_LONG, L_MOV, L_SET, L_SWAP_SAME, L_SWAP_CROSS, L_SEC_DEL, L_SEC_ADD, L_SEC_SET, L_SEC_SWAP, L_SEC_SWAP_CROSS, L_LEN12, L_FORSAFE };
 static char const *const labels[] = {"add", "del", "rot_on_len_le_1", "rot_on_len_ge_3", "mov", "set_node", "swap_node_same_ring", "swap_node_cross_ring",
-                                     "section_del", "section_add", "section_set", "section_swap_same_ring", "section_swap_cross_ring", "ring_len_ge_12", nullptr};
+                                     "section_del", "section_add", "section_set", "section_swap_same_ring", "section_swap_cross_ring", "ring_len_ge_12", "removal_safe_iteration", nullptr};
 #define UNIT "list"
 #else
-enum { L_ADD, L_DEL, L_ROT_SHORT, L_ROT_LONG, L_MOV_SHORT, L_MOV_LONG, L_MOV_AT_TAIL, L_DEL_TAIL, L_ADD_TAIL, L_LEN12 };
-static char const *const labels[] = {"add", "del", "rot_on_len_le_1", "rot_on_len_ge_3", "mov_src_len_le_1", "mov_src_len_ge_3", "mov_at_tail", "del_last_node", "add_after_tail", "len_ge_12", nullptr};
+enum { L_ADD, L_DEL, L_ROT_SHORT, L_ROT_LONG, L_MOV_SHORT, L_MOV_LONG, L_MOV_AT_TAIL, L_DEL_TAIL, L_ADD_TAIL, L_LEN12, L_FORSAFE };
+static char const *const labels[] = {"add", "del", "rot_on_len_le_1", "rot_on_len_ge_3", "mov_src_len_le_1", "mov_src_len_ge_3", "mov_at_tail", "del_last_node", "add_after_tail", "len_ge_12", "removal_safe_iteration", nullptr};
 #define UNIT "slist"
 #endif
 static char const *const metrics[] = {"max_len", nullptr};
@@ -100,7 +100,7 @@ static void run_case(Tape &t, Ctx &cx)
         ++cx.rep->subcases;
         uint8_t opb = t.u8();
         int r = (opb >> 7) & 1;
-        uint8_t op = (opb & 0x7F) % 14;
+        uint8_t op = (opb & 0x7F) % 15;
         cx.hash.add(opb);
         std::vector<int> &R = s.ring[r];
         switch (op)
@@ -289,6 +289,44 @@ static void run_case(Tape &t, Ctx &cx)
             }
             sec = true;
             break; }
+        case 14: {
+            // removal-safe iteration (four spellings): every node of the ring is visited exactly once, in ring order, while the
+            // nodes selected by a mask from the tape are deleted from inside the loop body
+            uint32_t mask = t.u32();
+            int form = t.u8() % 4;
+            cx.hash.add(mask ^ uint32_t(form));
+            std::vector<int> visited, keep, want(R.begin(), R.end());
+            if (form & 1) { std::reverse(want.begin(), want.end()); }
+            size_t lim = POOL + 2, vi = 0;
+            auto body = [&](a_list *it) {
+                int id = id_of(s, it);
+                VP_CHECK(cx, id >= 0, "list:foreign_node", "removal-safe iteration over ring %d reaches a foreign node", r);
+                visited.push_back(id);
+                VP_CHECK(cx, visited.size() <= lim, "list:cycle", "removal-safe iteration over ring %d does not terminate", r);
+                if ((mask >> (vi % 32)) & 1)
+                {
+                    a_list_del_node(it);
+                    a_list_init(it);
+                    s.freeids.push_back(id);
+                }
+                else { keep.push_back(id); }
+                ++vi;
+            };
+            a_list *h = &s.head[r];
+            switch (form)
+            {
+            case 0: { a_list_forsafe_next(it, at, h) { body(it); } break; }
+            case 1: { a_list_forsafe_prev(it, at, h) { body(it); } break; }
+            case 2: { a_list *it, *at; A_LIST_FORSAFE_NEXT(it, at, h) { body(it); } break; }
+            default: { a_list *it, *at; A_LIST_FORSAFE_PREV(it, at, h) { body(it); } break; }
+            }
+            VP_CHECK(cx, visited == want, "list:forsafe_sequence", "removal-safe iteration (form %d) over ring %d visited %zu nodes, the ring had %zu (or the order differs)", form, r, visited.size(), want.size());
+            if (form & 1) { std::reverse(keep.begin(), keep.end()); }
+            if (keep.size() != R.size()) { cx.label(L_DEL); }
+            R = keep;
+            cx.label(L_FORSAFE);
+            cx.log("ring%d removal-safe iteration form %d mask %#x\n", r, form, mask);
+            break; }
         default: {
             // section swap_: two disjoint, non-adjacent sections (same ring or across rings)
             bool x = t.coin();
@@ -394,7 +432,7 @@ static void run_case(Tape &t, Ctx &cx)
         ++cx.rep->subcases;
         uint8_t opb = t.u8();
         int r = (opb >> 7) & 1;
-        uint8_t op = (opb & 0x7F) % 8;
+        uint8_t op = (opb & 0x7F) % 9;
         cx.hash.add(opb);
         std::vector<int> &S = s.seq[r];
         a_slist *L = &s.list[r];
@@ -463,6 +501,37 @@ static void run_case(Tape &t, Ctx &cx)
             a_slist_rot(L);
             if (!S.empty()) { std::rotate(S.begin(), S.begin() + 1, S.end()); }
             break;
+        case 8: {
+            // removal-safe iteration (both spellings) with deletions from inside the body, the way the repository's test does it:
+            // a_slist_del(list, at) and it = null
+            uint32_t mask = t.u32();
+            bool upper = t.coin();
+            cx.hash.add(mask ^ uint32_t(upper));
+            std::vector<int> visited, keep;
+            size_t vi = 0;
+            auto body = [&](a_slist_node *&it, a_slist_node *at) {
+                int id = -1;
+                for (int i = 0; i < POOL; ++i) { if (s.node[i] == it) { id = i; } }
+                VP_CHECK(cx, id >= 0, "slist:foreign_node", "removal-safe iteration over list %d reaches an unknown pointer", r);
+                visited.push_back(id);
+                VP_CHECK(cx, visited.size() <= size_t(POOL) + 1, "slist:cycle", "removal-safe iteration over list %d does not terminate", r);
+                if ((mask >> (vi % 32)) & 1)
+                {
+                    a_slist_del(L, at);
+                    s.freeids.push_back(id);
+                    it = nullptr;
+                }
+                else { keep.push_back(id); }
+                ++vi;
+            };
+            if (upper) { a_slist_node *it, *at; A_SLIST_FORSAFE(it, at, L) { body(it, at); } }
+            else { a_slist_forsafe(it, at, L) { body(it, at); } }
+            VP_CHECK(cx, visited == S, "slist:forsafe_sequence", "removal-safe iteration over list %d visited %zu nodes, the list had %zu (or the order differs)", r, visited.size(), S.size());
+            if (keep.size() != S.size()) { cx.label(L_DEL); }
+            S = keep;
+            cx.label(L_FORSAFE);
+            cx.log("list%d removal-safe iteration mask %#x\n", r, mask);
+            break; }
         default: {
             // move the other list into this one after position pos, then re-initialise the source (as the tests do)
             std::vector<int> &O = s.seq[1 - r];
